@@ -91,6 +91,11 @@ func runScenario(sc *Scenario, replay []simrt.Decision) *outcome {
 	steps := 2000
 	for _, t := range sc.Tasks {
 		steps += 4000 * len(t.Ops)
+		for _, op := range t.Ops {
+			if op.K == "lookup" && op.R > 1 {
+				steps += 40 * op.R
+			}
+		}
 	}
 	cfg := simrt.Config{MaxSteps: steps, Strategy: sc.Strategy.Build(), Replay: replay, Record: true, HB: true,
 		OnStep: w.onStep, SharedPkg: func(string) bool { return true }}
